@@ -12,7 +12,6 @@ DEDUCTIVE = ['vsg.vhdlFile.extract.tokens.New.extract_tokens', 'vsg.vhdlFile.uti
 def run():
     c = Check("C07", "other")
     c.engine = Engine()
-    if DEDUCTIVE:
-        c.deductive(DEDUCTIVE)
+    c.deductive(sorted(set(DEDUCTIVE + _pipeline.fix_bases(c.engine))))
     _pipeline.pipeline_part(c, "C07")
     return c.finish({"explanation": META["text"]})
